@@ -182,6 +182,16 @@ COLLIDING = [
      "copy_file('o.txt', 'x/a.txt')\ncopy_file('o.txt', 'y/a.txt')\n"),
     ('submodule-and-root-same-output', ['a.c', 'sub/b.c'], None),
 ]
+# every position of a three-output step against a later / an earlier single- or two-output step
+for _pos in range(3):
+    _multi = "build_step(['m1', 'm2', 'm3'], cmd=['touch', 'm1', 'm2', 'm3'])\n"
+    _n = 'm%d' % (_pos + 1)
+    _one = "build_step(%r, cmd=['touch', %r])\n" % (_n, _n)
+    _two = "build_step(['other', %r], cmd=['touch', 'other', %r])\n" % (_n, _n)
+    COLLIDING += [('multi-output-%d-then-single' % _pos, [], _multi + _one),
+                  ('single-then-multi-output-%d' % _pos, [], _one + _multi),
+                  ('multi-output-%d-then-two' % _pos, [], _multi + _two),
+                  ('two-then-multi-output-%d' % _pos, [], _two + _multi)]
 
 
 def tree_snapshot(root):
